@@ -92,10 +92,11 @@ def history(draw, border=False):
     lay = draw(st.sampled_from(LAYOUTS))
     L = [L0 * lay[0], L0 * lay[1], L0 * lay[2]]
     gravity = draw(st.sampled_from(["none", "tree", "tree"]))
-    collision = draw(st.sampled_from(["none", "none", "tree", "tree", "linetree", "direct"]))
+    collision = draw(st.sampled_from(["none", "none", "tree", "tree", "linetree", "direct", "line"]))
     if border and gravity == "none" and collision not in ("tree", "linetree"):
         gravity = "tree"
-    nghost = [draw(st.sampled_from([0, 0, 1])) for _ in range(3)] if boundary in ("periodic", "shear") else [0, 0, 0]
+    nghost = [draw(st.sampled_from([0, 0, 1] if collision == "none" else [0, 1, 1, 2])) for _ in range(3)] \
+        if boundary in ("periodic", "shear") else [0, 0, 0]
     dt = draw(st.sampled_from([0.01, 0.3, 1.0])) * draw(st.sampled_from([1.0, 1.0, -1.0]))
     cfg = {"boundary": boundary, "L0": L0, "layout": list(lay), "L": L, "gravity": gravity, "collision": collision,
            "nghost": nghost, "omega": draw(st.sampled_from([1.0, 0.37])), "dt": dt,
@@ -104,6 +105,29 @@ def history(draw, border=False):
     radius = 0.08 * L0 if collision != "none" else 0.0
     n = draw(st.one_of(st.integers(1, 8), st.integers(5, 60 if not border else 20)))
     parts = [draw(particle(L, L0, dt, 1 + i, border, radius)) for i in range(n)]
+    if radius and boundary in ("periodic", "shear"):
+        # pairs touching THROUGH a box face (one just inside the +face, its partner just inside the -face), approaching
+        # slowly enough not to cross the face within a step: they merge across the boundary via a ghost image
+        for k in range(draw(st.integers(0, 3))):
+            ax = draw(st.sampled_from([1, 2] if boundary == "shear" else [0, 1, 2]))
+            nghost[ax] = max(nghost[ax], 1)
+            r1, r2 = radius * draw(S.floats(0.3, 1.0)), radius * draw(S.floats(0.3, 1.0))
+            a, b = draw(S.floats(0.05, 0.45)) * r1, draw(S.floats(0.05, 0.45)) * r2
+            base = [draw(S.floats(-0.45, 0.45)) * L[j] + 3.21e-3 * (k + 1) * L0 for j in range(3)]
+            u = draw(S.floats(0.01, 0.3)) * min(a, b) / abs(dt)
+            two = []
+            for sgn, rr, gap, hv in ((1.0, r1, a, 500 + 2 * k), (-1.0, r2, b, 501 + 2 * k)):
+                x = [base[j] + 0.1 * rr * draw(S.floats(-1.0, 1.0)) for j in range(3)]
+                x[ax] = sgn * (L[ax] / 2 - gap)
+                v = [0.0, 0.0, 0.0]
+                v[ax] = sgn * u
+                two.append({"x": x[0], "y": x[1], "z": x[2], "vx": v[0], "vy": v[1], "vz": v[2],
+                            "m": draw(S.logfloats(1e-3, 1.0)), "r": rr, "hash": hv})
+            if draw(st.booleans()):
+                two.reverse()       # which of the two has the lower index (= survives) varies
+            pos_ = draw(st.integers(0, len(parts)))
+            parts[pos_:pos_] = two
+    cfg["nghost"] = nghost
     ops = []
     nops = draw(st.integers(2, 10))
     h = 1000
@@ -282,11 +306,15 @@ def check_step(s0, s1, t1, cfg, tree_in_use, R, ctx, user_removed):
     X1 = R.pos(s1)
     if b in ("periodic", "shear") and len(s1):
         # (a merger happens after the boundary check and its centre of mass is rounded: merged bodies are not asserted)
-        outside = (np.abs(X1) > half[None, :]).any(axis=1) & np.array([int(h) not in stamped for h in s1["hash"]])
+        # (a merger happens after the boundary check and its centre of mass is rounded: merged bodies may sit a
+        # rounding error - not more - outside)
+        is_st = np.array([int(h) in stamped for h in s1["hash"]])
+        lim = np.where(is_st[:, None], half[None, :] * (1 + 8 * R.EPS), half[None, :])
+        outside = (np.abs(X1) > lim).any(axis=1)
         if outside.any():
             k = int(np.nonzero(outside)[0][0])
-            raise Violation("%s boundary: particle hash %d is outside the box after the step: %r"
-                            % (b, int(s1["hash"][k]), X1[k].tolist()))
+            raise Violation("%s boundary: particle hash %d is outside the box after the step%s: %r"
+                            % (b, int(s1["hash"][k]), " (survivor of a merger)" if is_st[k] else "", X1[k].tolist()))
     crossed_root = crossed_box = multi = False
     om = cfg["omega"]
     for h, i1 in o1.items():
